@@ -443,6 +443,19 @@ class PathCtx:
         self.obligations.append(ob)
         return ob
 
+    def record(self, name, ok, solver, detail='', native_replay=None):
+        """Record the outcome of a check made outside the solver (bounded native enumeration): labelled with its back end;
+        a failure carries its own native witness."""
+        ob = Obligation(name, 'discharged' if ok else 'refuted', detail=detail, solver=solver)
+        ob.path = list(self.decisions[:self.pos])
+        ob.model = None
+        self.obligations.append(ob)
+        if native_replay is not None:
+            if not hasattr(self, 'native_replays'):
+                self.native_replays = {}
+            self.native_replays[id(ob)] = native_replay
+        return ob
+
     def _small_model(self, cond):
         """a counter-model of `PC => cond`, preferring short texts and small integers (readable replays)"""
         m = self.solver.model()
